@@ -25,18 +25,73 @@ class Recursion(Exception):
     pass
 
 
-class St:
-    __slots__ = ("ghost", "peeked", "nz", "vals", "nsym")
+ADV_TOP = 4  # `>= 4` (inexact)
+ADV_BOT = -3  # below this nothing is known
 
-    def __init__(s, ghost=("SAFE",), peeked=None, nz=None, vals=None, nsym=0):
+
+def adv_add(a, d):
+    """a = (lo, exact); d = int or (lo, exact)"""
+    if isinstance(d, tuple):
+        lo, ex = a[0] + d[0], a[1] and d[1]
+    else:
+        lo, ex = a[0] + d, a[1]
+    if lo >= ADV_TOP:
+        return (ADV_TOP, False)
+    if lo <= ADV_BOT:
+        return (ADV_BOT, False)
+    return (lo, ex)
+
+
+def adv_cmp(op, a, b):
+    """compare two offsets given as advances relative to the same origin; returns bool or None"""
+    (la, ea), (lb, eb) = a, b
+    if la <= ADV_BOT or lb <= ADV_BOT:
+        return None
+    if ea and eb:
+        return {"Gt": la > lb, "Ge": la >= lb, "Lt": la < lb, "Le": la <= lb, "Eq": la == lb, "Ne": la != lb}[op]
+    if eb and not ea:  # a >= la
+        if op in ("Gt",) and la > lb:
+            return True
+        if op in ("Ge",) and la >= lb:
+            return True
+        if op in ("Le", "Lt", "Eq") and la > lb:
+            return False
+        if op == "Ne" and la > lb:
+            return True
+    if ea and not eb:  # b >= lb
+        if op in ("Lt",) and lb > la:
+            return True
+        if op in ("Le",) and lb >= la:
+            return True
+        if op in ("Gt", "Ge", "Eq") and lb > la:
+            return False
+        if op == "Ne" and lb > la:
+            return True
+    return None
+
+
+class St:
+    __slots__ = ("ghost", "peeked", "nz", "vals", "nsym", "adv", "since", "ebuf")
+
+    def __init__(s, ghost=("SAFE",), peeked=None, nz=None, vals=None, nsym=0, adv=(0, True), since=None, ebuf="U"):
         s.ghost = ghost
         s.peeked = peeked
         s.nz = dict(nz or {})
         s.vals = dict(vals or {})
         s.nsym = nsym
+        s.adv = adv  # net bytes consumed since function entry: (lower bound, exact?)
+        s.since = dict(since or {})  # loop header -> lower bound of net advance since its last visit
+        s.ebuf = ebuf  # emptiness of the parser's scratch vector: E / N / U
 
     def copy(s):
-        return St(s.ghost, s.peeked, s.nz, s.vals, s.nsym)
+        return St(s.ghost, s.peeked, s.nz, s.vals, s.nsym, s.adv, s.since, s.ebuf)
+
+    def move(s, d):
+        s.adv = adv_add(s.adv, d)
+        lo = d[0] if isinstance(d, tuple) else d
+        for h in list(s.since):
+            v = s.since[h] + lo
+            s.since[h] = max(ADV_BOT, min(2, v))
 
     def norm(s):
         if s.ghost[0] == "PEND":
@@ -63,7 +118,7 @@ class St:
         p = ren(s.peeked)
         items = tuple(sorted((k, ren(v)) for k, v in s.vals.items()))
         nz = tuple(sorted((order[k], v) for k, v in s.nz.items() if k in order))
-        return (g, p, nz, items)
+        return (g, p, nz, items, s.adv, tuple(sorted(s.since.items())), s.ebuf)
 
     def fresh(s, nz="U"):
         s.nsym += 1
@@ -77,6 +132,17 @@ def _opval(st, op):
         pl = op["place"]
         if not pl["p"]:
             return st.vals.get(pl["l"])
+        last = pl["p"][-1]
+        if last["k"] == "field" and last.get("name") == "ofs" and norm(last.get("of", "")) == "scanner::Scanner":
+            return ("ofs", st.adv)
+        if len(pl["p"]) == 1 and last["k"] == "field":
+            v = st.vals.get(pl["l"])
+            if v and v[0] == "pair":
+                return v[1] if (last.get("name") or str(last.get("i"))) == "0" else ("bool", False)
+        if len(pl["p"]) == 2 and pl["p"][0]["k"] == "downcast" and last["k"] == "field":
+            v = st.vals.get(pl["l"])
+            if v and v[0] in ("res", "cf") and len(v) > 2 and v[1] == pl["p"][0]["variant"]:
+                return v[2]
         return None
     if op["k"] == "const" and op["int"] is not None:
         ty = op["ty"]["s"]
@@ -133,6 +199,13 @@ def _refine(st, pred, truth):
 
 
 def _mkpred(op, a, b):
+    if a and b and a[0] == "ofs" and b[0] == "ofs" and op in ("Gt", "Ge", "Lt", "Le", "Eq", "Ne"):
+        r = adv_cmp(op, a[1], b[1])
+        return ("bool", r) if r is not None else None
+    if a and b and a[0] == "ofs" and b[0] == "int" and op in ("Sub", "SubWithOverflow", "Add", "AddWithOverflow"):
+        v = ("ofs", adv_add(a[1], b[1] if op.startswith("Add") else -b[1]))
+        return ("pair", v) if op.endswith("Overflow") else v
+
     def symk(x, y):
         return x is not None and y is not None and x[0] == "char" and y[0] == "cchar"
 
@@ -177,6 +250,9 @@ class Typestate:
         self.viol = collections.OrderedDict()
         self.sites = 0
         self.site_keys = set()
+        self.noadv = collections.OrderedDict()  # (fn, loop ordinal) -> info: a cycle that may not consume input
+        self.loops_checked = set()
+        self._loops = {}
 
     def is_scanner_fn(self, name):
         b = self.F.bodies.get(name)
@@ -212,6 +288,16 @@ class Typestate:
         chain = [f[0] for f in self.stack]
         self.viol.setdefault(key, dict(key=key, what=what, ghost=ghost, loc=loc if frame[0] == body.nname else frame[3], deepest="%s -> %s @%s" % (body.nname, callee, loc), chain=chain))
 
+    def loops_of(self, fname):
+        r = self._loops.get(fname)
+        if r is None:
+            from .cfg import CFG
+
+            c = CFG(self.F.bodies[fname])
+            hs = c.loop_headers()
+            r = self._loops[fname] = (hs, {h: c.natural_loop(h) for h in hs})
+        return r
+
     def analyze(self, fname, entry_ghost="SAFE", entry_peek_nz=None, const_args=()):
         mk = (fname, entry_ghost, entry_peek_nz, const_args)
         if mk in self.memo:
@@ -240,6 +326,16 @@ class Typestate:
             seen.add(k)
             blk = body.blocks[bb]
             st = st.copy()
+            hs, nat = self.loops_of(fname)
+            for h in list(st.since):
+                if bb not in nat[h]:
+                    del st.since[h]
+            if bb in nat:
+                self.loops_checked.add((fname, hs.index(bb)))
+                if bb in st.since and st.since[bb] < 1:
+                    key = "%s|loop#%d" % (fname, hs.index(bb))
+                    self.noadv.setdefault(key, dict(key=key, fn=fname, header=bb, lb=st.since[bb], chain=[f[0] for f in self.stack], loc=body.blocks[bb]["term"].get("loc") if body.blocks[bb]["term"] else body.loc))
+                st.since[bb] = 0
             for s in blk["stmts"]:
                 if s["k"] == "dead":
                     st.vals.pop(s["l"], None)
@@ -264,8 +360,13 @@ class Typestate:
                                 val = ("int", 0 if v[1] == "Ok" else 1)
                             elif v and v[0] == "cf":
                                 val = ("int", 0 if v[1] == "Continue" else 1)
+                            elif v and v[0] == "opt":
+                                val = ("int", 0 if v[1] == "None" else 1)
                     elif rv["k"] == "agg" and rv["ak"] == "adt" and norm(rv["name"]) == "std::result::Result":
-                        val = ("res", rv["variant"])
+                        pay = _opval(st, rv["ops"][0]) if rv["ops"] else None
+                        val = ("res", rv["variant"], pay) if pay and pay[0] == "opt" else ("res", rv["variant"])
+                    elif rv["k"] == "agg" and rv["ak"] == "adt" and norm(rv["name"]) == "std::option::Option":
+                        val = ("opt", rv["variant"])
                     elif rv["k"] == "cast":
                         val = _opval(st, rv["op"])
                     _set(st, s["place"], val)
@@ -284,9 +385,10 @@ class Typestate:
                 if g == "PEND":
                     g = "PENDX"
                 rv = st.vals.get(0)
-                if rv is not None and rv[0] not in ("res", "bool"):
+                if rv is not None and rv[0] not in ("res", "bool", "opt"):
                     rv = None
-                exits.add((g, rv))
+                at_nul = st.peeked is not None and st.nz.get(st.peeked) == "Z"
+                exits.add((g, rv, st.adv, at_nul))
             elif tk == "switch":
                 self._switch(st, t, go)
             elif tk == "call":
@@ -367,6 +469,7 @@ class Typestate:
             sym = s2.peeked if s2.peeked is not None else s2.fresh()
             s2.peeked = None
             s2.ghost = ("PEND", sym)
+            s2.move(1)
             _set(s2, dest, ("char", sym))
             go(tgt, s2)
         elif callee == PEEK:
@@ -382,6 +485,7 @@ class Typestate:
             s2 = st.copy()
             s2.ghost = ("SAFE",)
             s2.peeked = None
+            s2.move(-1)
             _set(s2, dest, None)
             go(tgt, s2)
         elif callee in NOOPS:
@@ -391,7 +495,7 @@ class Typestate:
         elif callee.endswith("::branch") and "Try" in callee:
             s2 = st.copy()
             a = _opval(st, t["args"][0])
-            _set(s2, dest, ("cf", "Continue" if a[1] == "Ok" else "Break") if a and a[0] == "res" else None)
+            _set(s2, dest, (("cf", "Continue" if a[1] == "Ok" else "Break") + tuple(a[2:3])) if a and a[0] == "res" else None)
             go(tgt, s2)
         elif "FromResidual" in callee:
             s2 = st.copy()
@@ -406,13 +510,38 @@ class Typestate:
             for a in t["args"]:
                 v = _opval(st, a)
                 cargs.append(v if v and v[0] in ("cchar", "bool") else None)
-            for g2, rv in self.analyze(callee, g, pk, tuple(cargs)):
+            for g2, rv, cadv, _nul in self.analyze(callee, g, pk, tuple(cargs)):
                 s2 = st.copy()
                 s2.peeked = None
                 s2.ghost = (g2,) if g2 != "PENDX" else ("PEND", s2.fresh("U"))
+                s2.move(cadv)
                 _set(s2, dest, rv)
                 go(tgt, s2)
+        elif callee.startswith("std::vec::Vec::") and callee.split("::")[-1] in ("clear", "push", "is_empty") and self._is_scratch(body, bb, t):
+            s2 = st.copy()
+            m = callee.split("::")[-1]
+            if m == "clear":
+                s2.ebuf = "E"
+                _set(s2, dest, None)
+            elif m == "push":
+                s2.ebuf = "N"
+                _set(s2, dest, None)
+            else:
+                _set(s2, dest, ("bool", s2.ebuf == "E") if s2.ebuf in ("E", "N") else None)
+            go(tgt, s2)
         else:
             s2 = st.copy()
             _set(s2, dest, None)
             go(tgt, s2)
+
+    def _is_scratch(self, body, bb, t):
+        """receiver is `&[mut] (*self).eval_buf` built in this block"""
+        a = t["args"][0]
+        if a["k"] not in ("copy", "move") or a["place"]["p"]:
+            return False
+        l = a["place"]["l"]
+        for s in body.blocks[bb]["stmts"]:
+            if s["k"] == "assign" and not s["place"]["p"] and s["place"]["l"] == l and s["rv"]["k"] == "ref":
+                ps = [p for p in s["rv"]["place"]["p"] if p["k"] == "field"]
+                return bool(ps) and ps[-1].get("name") == "eval_buf"
+        return False
